@@ -45,6 +45,23 @@ func DecodeBinaryHeader(data string) ([]byte, error) {
 	return base64.StdEncoding.DecodeString(data)
 }
 
+// mergeMetadataHeaders merges an error's metadata into the headers or trailers
+// of a response, leaving out the headers that describe an HTTP message itself.
+// The metadata of an error that came out of a client call holds that
+// response's headers - Content-Type, Content-Length and so on - and handlers
+// commonly return such errors as they are: those headers describe the upstream
+// message, not the one we're writing.
+func mergeMetadataHeaders(into, from http.Header) {
+	for key, vals := range from {
+		switch key {
+		case "Content-Type", "Content-Length", "Content-Encoding",
+			"Host", "User-Agent", "Trailer", "Date":
+			continue
+		}
+		into[key] = append(into[key], vals...)
+	}
+}
+
 func mergeHeaders(into, from http.Header) {
 	for k, vals := range from {
 		into[k] = append(into[k], vals...)
